@@ -7,8 +7,9 @@ from rules import C08
 def run(ctx):
     ctx.clause = ("a category the harmful categoriser assigns can never be switched off by the default mask, and "
                   "whenever has_net_changes() / has_incompatible_changes() hold abidiff's exit value carries the "
-                  "CHANGE / INCOMPATIBLE bits on every path; removals feed has_incompatible_changes")
-    ctx.rules = ["R-CATPART", "R-STATUS/abidiff", "R-ATOMS/removed"]
+                  "CHANGE / INCOMPATIBLE bits on every path; removals feed has_incompatible_changes; the symbol re-lookup "
+                  "that can cancel a removal only answers with the requested version")
+    ctx.rules = ["R-CATPART", "R-STATUS/abidiff", "R-ATOMS/removed", "R-VERLOOKUP"]
     P = ctx.program(cr.UNITS)
     cr.check_catpart(ctx, P)
     # exit code mapping of abidiff
@@ -37,5 +38,7 @@ def run(ctx):
     for atom in ("net_num_func_removed", "net_num_vars_removed", "net_num_removed_func_syms", "net_num_removed_var_syms"):
         ctx.ob("R-ATOMS/removed", "has_incompatible_changes tests %s" % atom, ("net", atom) in flat, inc.loc(),
                "removal counters are disjuncts of the incompatible-change verdict")
+    from rules import verlookup_rule
+    verlookup_rule.check(ctx, ctx.program(verlookup_rule.UNITS))
     ctx.assume("that a given source edit produces a diff node carrying the harmful category is the diff engine's "
                "runtime behaviour")
